@@ -75,8 +75,9 @@ class _Interp(IndexInterp):
         return super().ev(e)
 
 
-def interpret(fn, sorts, option, repo=None):
-    """-> (StepResult, outcome) with outcome 'returns' / 'falls through' / 'raises <Exception>'"""
+def interpret(fn, sorts, option, repo=None, zeros=()):
+    """-> (StepResult, outcome) with outcome 'returns' / 'falls through' / 'raises <Exception>'; zeros: positions of scalar parameters given the
+    value 0 instead of a symbol (a symbol is generic: equal to nothing but itself)"""
     res = StepResult()
     ps = params_of(fn)
     if len(ps) != len(sorts):
@@ -87,7 +88,7 @@ def interpret(fn, sorts, option, repo=None):
         if s == "point":
             env[p] = VecObj("Point", PointV.atom("arg%d" % k))
         elif s == "scalar":
-            env[p] = Rat.sym("arg%d" % k)
+            env[p] = Rat(0) if k in zeros else Rat.sym("arg%d" % k)
         elif s == "function":
             env[p] = SymObj("Function", label="F%d" % k, name=None)
         elif s == "points":
